@@ -4,7 +4,7 @@
 //! shared state, outside of every lock region. A verification harness installs
 //! a thread-local callback and thereby decides which thread continues at each
 //! point. Threads without a callback are not affected.
-use std::cell::RefCell;
+use std::cell::{Cell, RefCell};
 
 thread_local! {
     static HOOK: RefCell<Option<Box<dyn Fn(&'static str)>>> = const { RefCell::new(None) };
@@ -22,6 +22,7 @@ pub fn point(id: &'static str) {
             f(id)
         }
     });
+    arm();
 }
 
 /// A schedule point which is reached when this value is dropped unless it
@@ -79,4 +80,162 @@ pub struct UnmanagedSnapshot {
     pub queue_len: usize,
     /// `PoolInner::config.max_size`
     pub max_size: usize,
+}
+
+// ---------------------------------------------------------------------------
+// Implicit schedule points.
+//
+// `Mutex` and `Semaphore` below replace `std::sync::Mutex` and
+// `tokio::sync::Semaphore` in the pools when the crate is built with
+// `--cfg deadpool_verif`. Every operation on them is a potential schedule
+// point: it is one unless the thread has just passed an explicit [`point`]
+// (which "arms" the next operation) or holds one of these mutexes. In the
+// code as it stands every operation is armed or inside a lock region, so no
+// implicit point is ever reached; an operation that is moved away from its
+// explicit point, or out of its lock region, becomes a schedule point of its
+// own and the window it opens can be explored by a harness.
+use std::ops::{Deref, DerefMut};
+use std::sync::{LockResult, PoisonError};
+
+thread_local! {
+    static ARMED: Cell<bool> = const { Cell::new(true) };
+    static LOCK_DEPTH: Cell<u32> = const { Cell::new(0) };
+}
+
+/// Marks the next operation on shared state as not being a schedule point.
+pub fn arm() {
+    ARMED.with(|a| a.set(true));
+}
+
+fn shared_op(id: &'static str) {
+    if LOCK_DEPTH.with(|d| d.get()) > 0 {
+        return;
+    }
+    if ARMED.with(|a| a.replace(false)) {
+        return;
+    }
+    implicit_point(id);
+    // the harness may have armed the thread on resumption: the operation after
+    // this one is a schedule point again
+    ARMED.with(|a| a.set(false));
+}
+
+fn implicit_point(id: &'static str) {
+    HOOK.with(|h| {
+        if let Some(f) = h.borrow().as_ref() {
+            f(id)
+        }
+    });
+}
+
+/// `std::sync::Mutex` whose `lock()` is an implicit schedule point.
+#[derive(Debug, Default)]
+pub struct Mutex<T>(std::sync::Mutex<T>);
+
+/// Guard of [`Mutex`].
+#[derive(Debug)]
+pub struct MutexGuard<'a, T>(std::sync::MutexGuard<'a, T>);
+
+impl<T> Mutex<T> {
+    /// See `std::sync::Mutex::new`.
+    pub fn new(t: T) -> Self {
+        Self(std::sync::Mutex::new(t))
+    }
+    /// See `std::sync::Mutex::lock`.
+    pub fn lock(&self) -> LockResult<MutexGuard<'_, T>> {
+        shared_op("!mutex.lock");
+        let r = self.0.lock();
+        LOCK_DEPTH.with(|d| d.set(d.get() + 1));
+        match r {
+            Ok(g) => Ok(MutexGuard(g)),
+            Err(p) => Err(PoisonError::new(MutexGuard(p.into_inner()))),
+        }
+    }
+}
+
+impl<T> Mutex<T> {
+    /// Locks the mutex for observation: not a schedule point, and a poisoned
+    /// mutex is entered nevertheless.
+    pub fn raw_lock(&self) -> std::sync::MutexGuard<'_, T> {
+        match self.0.lock() {
+            Ok(g) => g,
+            Err(p) => p.into_inner(),
+        }
+    }
+}
+
+impl<T> Deref for MutexGuard<'_, T> {
+    type Target = T;
+    fn deref(&self) -> &T {
+        &self.0
+    }
+}
+
+impl<T> DerefMut for MutexGuard<'_, T> {
+    fn deref_mut(&mut self) -> &mut T {
+        &mut self.0
+    }
+}
+
+impl<T> Drop for MutexGuard<'_, T> {
+    fn drop(&mut self) {
+        LOCK_DEPTH.with(|d| d.set(d.get().saturating_sub(1)));
+    }
+}
+
+/// `tokio::sync::Semaphore` whose operations are implicit schedule points.
+#[derive(Debug)]
+pub struct Semaphore(tokio::sync::Semaphore);
+
+impl Semaphore {
+    /// See `tokio::sync::Semaphore::new`.
+    pub fn new(permits: usize) -> Self {
+        Self(tokio::sync::Semaphore::new(permits))
+    }
+    /// See `tokio::sync::Semaphore::available_permits`.
+    pub fn available_permits(&self) -> usize {
+        shared_op("!sem.available_permits");
+        self.0.available_permits()
+    }
+    /// See `tokio::sync::Semaphore::add_permits`.
+    pub fn add_permits(&self, n: usize) {
+        shared_op("!sem.add_permits");
+        self.0.add_permits(n)
+    }
+    /// See `tokio::sync::Semaphore::try_acquire`.
+    pub fn try_acquire(
+        &self,
+    ) -> Result<tokio::sync::SemaphorePermit<'_>, tokio::sync::TryAcquireError> {
+        shared_op("!sem.try_acquire");
+        self.0.try_acquire()
+    }
+    /// See `tokio::sync::Semaphore::try_acquire_many`.
+    pub fn try_acquire_many(
+        &self,
+        n: u32,
+    ) -> Result<tokio::sync::SemaphorePermit<'_>, tokio::sync::TryAcquireError> {
+        shared_op("!sem.try_acquire");
+        self.0.try_acquire_many(n)
+    }
+    /// See `tokio::sync::Semaphore::acquire`.
+    pub async fn acquire(
+        &self,
+    ) -> Result<tokio::sync::SemaphorePermit<'_>, tokio::sync::AcquireError> {
+        shared_op("!sem.acquire");
+        self.0.acquire().await
+    }
+    /// See `tokio::sync::Semaphore::close`.
+    pub fn close(&self) {
+        shared_op("!sem.close");
+        self.0.close()
+    }
+    /// See `tokio::sync::Semaphore::is_closed`.
+    pub fn is_closed(&self) -> bool {
+        shared_op("!sem.is_closed");
+        self.0.is_closed()
+    }
+    /// The wrapped semaphore; observation only (not a schedule point).
+    pub fn raw(&self) -> &tokio::sync::Semaphore {
+        &self.0
+    }
 }
